@@ -10,6 +10,13 @@ import circuits.protocols.websocket as ws_mod
 from circuits.protocols.websocket import WebSocketCodec
 
 
+import socket as _socket
+from circuits import BaseComponent
+from circuits.net.events import disconnect
+import circuits.web.websockets.client as wsclient_mod
+from circuits.web.websockets.dispatcher import WebSocketsDispatcher
+from circuits.web.http import HTTP as WebHTTP
+
 # ----------------------------------------------------------------------------- independent RFC 6455 codec (the peer)
 
 def rfc_encode(fin, opcode, key, payload):
@@ -70,9 +77,9 @@ def rfc_decode_stream(data, expect_masked):
             i += 8
             if n < 65536 or n >> 63:
                 raise BadFrame('length not minimally encoded')
-        if masked != expect_masked and opcode != 8:
-            # (the mask bit of the close frame is not looked at: the property does not speak about it, see notes/C17.md)
-            raise BadFrame('mask bit is %s' % masked)
+        if masked != expect_masked:
+            # RFC 6455 5.1: a client masks every frame it sends (close included), a server none
+            raise BadFrame('mask bit of a written frame (opcode %d) is %s' % (opcode, masked))
         key = None
         if masked:
             if len(data) - i < 4:
@@ -260,6 +267,117 @@ class ImplError(Exception):
     pass
 
 
+class FakeTransport(BaseComponent):
+    """stands in for the TCPClient child of WebSocketClient: records what would go to the wire"""
+    connected = True
+
+    def __init__(self, channel='wsclient'):
+        super().__init__(channel=channel)
+        self.cur = {'d': [], 'w': [], 'c': 0}
+
+    @handler('write')
+    def _w(self, data):
+        self.cur['w'].append((None, bytes(data)))
+
+    @handler('close')
+    def _c(self, *a):
+        self.cur['c'] += 1
+
+
+class Errors(Component):
+    def init(self):
+        self.errors = []
+
+    @handler('exception', channel='*')
+    def _e(self, etype, evalue, *a, **k):
+        self.errors.append((etype.__name__, str(evalue)))
+
+
+class ClientApp(Component):
+    channel = 'ws'
+
+    def init(self, tr):
+        self.tr = tr
+
+    @handler('read')
+    def _r(self, *a):
+        self.tr.cur['d'].append((None, a[-1]))
+
+
+class RealSock(_socket.socket):
+    """HTTP._on_exception and the dispatcher want a real socket object with a peer name"""
+    def __init__(self, n):
+        super().__init__(_socket.AF_INET, _socket.SOCK_STREAM)
+        self.n = n
+
+    def getpeername(self):
+        return ('10.0.0.%d' % self.n, 1000 + self.n)
+
+
+class FakeServer(BaseComponent):
+    channel = 'web'
+    host, port, secure, display_banner = '127.0.0.1', 8000, False, False
+
+    def __init__(self):
+        super().__init__()
+        self.cur = {}
+        self.http = WebHTTP(self).register(self)
+
+    def slot(self, n):
+        return self.cur.setdefault(n, {'d': [], 'w': [], 'c': 0, 'connect': 0, 'disc': 0})
+
+    @handler('write', priority=100)
+    def _w(self, sock, data):
+        self.slot(sock.n)['w'].append(bytes(data))
+
+    @handler('close', priority=100)
+    def _c(self, sock):
+        self.slot(sock.n)['c'] += 1
+
+
+class ServerApp(Component):
+    channel = 'wsserver'
+
+    def init(self, srv):
+        self.srv = srv
+
+    @handler('read')
+    def _r(self, sock, data):
+        self.srv.slot(sock.n)['d'].append(data)
+
+    @handler('connect')
+    def _cn(self, sock, *a):
+        self.srv.slot(sock.n)['connect'] += 1
+
+    @handler('disconnect')
+    def _d(self, sock, *a):
+        self.srv.slot(sock.n)['disc'] += 1
+
+
+REQUEST = (b'GET /ws/chat HTTP/1.1\r\nHost: example.org\r\nUpgrade: websocket\r\nConnection: keep-alive, Upgrade\r\n'
+           b'Sec-WebSocket-Key: dGhlIHNhbXBsZSBub25jZQ==\r\nSec-WebSocket-Version: 13\r\n\r\n')
+RESPONSES = [
+    b'HTTP/1.1 101 Switching Protocols\r\nUpgrade: websocket\r\nConnection: Upgrade\r\nSec-WebSocket-Accept: s3pPLMBiTxaQ9kYGzzhZRbK+xOo=\r\n\r\n',
+    b'HTTP/1.1 101 Web Socket Protocol Handshake\r\nConnection: upgrade\r\nUpgrade: WebSocket\r\n\r\n',
+    b'HTTP/1.1 101 Switching Protocols\r\nServer: x\r\nUpgrade: websocket\r\nX-Pad: abc\r\nConnection: keep-alive, Upgrade\r\nSec-WebSocket-Accept: q\r\n\r\n',
+]
+
+
+def msg_obs(m):
+    if isinstance(m, str):
+        return [1, hexs(m.encode('utf-8', 'surrogatepass'))]
+    return [0, hexs(m)]
+
+
+def frame_keys(frames):
+    used = []
+    for b in frames:
+        if len(b) >= 2 and b[1] & 0x80:
+            off = 2 + {126: 2, 127: 8}.get(b[1] & 0x7F, 0)
+            used.append(list(b[off:off + 4]))
+    return used
+
+
 def drain(m):
     for _ in range(10000):
         if not len(m):
@@ -270,6 +388,50 @@ def drain(m):
 
 def hexs(b):
     return bytes(b).hex()
+
+
+def disp_sock_ops(n, sc):
+    """operations of one socket, in order: ('up'|'read'|'send'|'disc'|'late', ...)"""
+    data, fr, ends = case_stream(sc)
+    chunks, _ = case_chunks(sc, data)
+    ops = [('up', n)]
+    for i in range(len(chunks) + 1):
+        for a in sc['sends']:
+            if min(a[0], len(chunks)) == i:
+                ops.append(('send', n, a[1], spec_bytes(a[2])))
+        if i < len(chunks):
+            ops.append(('read', n, chunks[i]))
+    if sc['disc']:
+        ops.append(('disc', n))
+        if sc['late']:
+            ops.append(('late', n, rfc_encode(True, 1, [1, 2, 3, 4], b'late')))
+    return ops
+
+
+def disp_ops(c):
+    per = {int(k): disp_sock_ops(int(k), v) for k, v in c['socks'].items()}
+    pos = {k: 0 for k in per}
+    out = []
+    for n in c['order']:
+        out.append(per[n][pos[n]])
+        pos[n] += 1
+    assert all(pos[k] == len(per[k]) for k in per)
+    return out
+
+
+def cup_ops(c):
+    """-> list of ('recv', bytes) | ('send', text, bytes) | ('close',) for the WebSocketClient case"""
+    data, _, _ = case_stream(c)
+    total = RESPONSES[c['head']] + data
+    chunks, _ = case_chunks(c, total)
+    ops = []
+    for i in range(len(chunks) + 1):
+        for a in c['app']:
+            if min(a[0], len(chunks)) == i:
+                ops.append(('send', a[2], spec_bytes(a[3])) if a[1] == 'send' else ('close',))
+        if i < len(chunks):
+            ops.append(('recv', chunks[i]))
+    return ops
 
 
 LENS = [0, 1, 2, 3, 4, 5, 7, 20, 124, 125, 126, 127, 128, 200, 255, 256, 257, 1000]
@@ -367,6 +529,17 @@ class C17(Prop):
                 items.append({'t': 'close', 'key': self._key(rng, masked),
                               'p': [3, 232] + [rng.randrange(32, 127) for _ in range(n - 2)] if n else []})
         c = {'k': 'ws', 'mode': mode, 'items': items, 'cuts': [], 'app': [], 'keys': []}
+        if rng.random() < 0.07:
+            # a text message that is not valid UTF-8: must not raise, the following messages must still arrive
+            texts = [it for it in items if it['t'] == 'msg' and it['text'] and it['p']['n'] * len(it['p']['pat']) + len(it['p']['tail']) < 4000]
+            if texts:
+                it = rng.choice(texts)
+                n = len(it['p']['pat']) * it['p']['n'] + len(it['p']['tail'])
+                bad = rng.choice([[255], [0xc3], [0xed, 0xa0, 0x80], [0xf8, 0x88], [97, 0x80]])
+                it['p'] = {'pat': bad, 'n': max(1, n // len(bad)), 'tail': []}
+                m = len(bad) * it['p']['n']
+                it['fcuts'] = sorted(min(x, m) for x in it['fcuts'])
+                c['lax'] = True
         data, fr, ends = case_stream(c)
         L = len(data)
         starts = [0] + ends[:-1]
@@ -408,6 +581,78 @@ class C17(Prop):
         c['_cm'] = cm
         return c
 
+    def gen_cup(self, rng, tier):
+        """WebSocketClient: 101 response followed by server frames, cut anywhere"""
+        self._want_big = False
+        for _ in range(50):
+            base = self.gen_case(rng, tier)
+            if base['mode'] == 'client' and not base.get('lax') and len(case_stream(base)[0]) < 3000:
+                break
+        base['mode'] = 'client'
+        for it in base['items']:      # a server does not mask
+            if it['t'] == 'msg':
+                it['keys'] = [None] * len(it['keys'])
+                for cl in it['ctls']:
+                    for ct in cl:
+                        ct['key'] = None
+            else:
+                it['key'] = None
+        head = rng.randrange(len(RESPONSES))
+        H = len(RESPONSES[head])
+        data, fr, ends = case_stream(base)
+        L = H + len(data)
+        r = rng.random()
+        if r < 0.15:
+            cuts = []
+        elif r < 0.5:       # around the end of the header block
+            cuts = [H + d for d in rng.sample([-5, -4, -3, -2, -1, 0, 1, 2, 3, 4, 6, 9], rng.randint(1, 4))]
+        elif r < 0.6 and L < 500:
+            cuts = list(range(1, L))
+        else:
+            cuts = [rng.randint(1, L) for _ in range(rng.randint(1, 6))] + [H + rng.randint(0, 3)]
+        cuts = sorted(set(x for x in cuts if 0 < x < L))
+        bounds = cuts + [L]
+        k0 = [i for i, b in enumerate(bounds) if b > H]
+        k0 = k0[0] if k0 else len(bounds)
+        app = []
+        for a in base['app']:
+            if a[1] == 'send' and len(spec_bytes(a[3])) > 3000:
+                continue
+            app.append([rng.randint(k0 + 1, len(bounds))] + a[1:])
+        app.sort(key=lambda a: a[0])
+        return {'k': 'cup', 'head': head, 'items': base['items'], 'cuts': cuts, 'app': app, 'keys': base['keys'] or
+                [self._key(rng, True) for _ in range(12)]}
+
+    def gen_disp(self, rng, tier):
+        """WebSocketsDispatcher: several sockets upgraded, their frame streams interleaved, one may disconnect"""
+        socks = {}
+        order = []
+        for n in rng.sample([1, 2, 3], rng.randint(1, 3)):
+            items = []
+            for _ in range(rng.randint(1, 3)):
+                text = rng.random() < 0.5
+                self._want_big = False
+                p = self._payload(rng, text, tier, allow_big=False)
+                ln = len(p['pat']) * p['n'] + len(p['tail'])
+                nfr = rng.choice([1, 1, 2, 3])
+                fcuts = sorted(rng.randint(0, ln) for _ in range(nfr - 1))
+                ctls = [[self._ctl(rng, True) for _ in range(rng.choice([0, 0, 1]))] for _ in range(nfr)]
+                items.append({'t': 'msg', 'text': text, 'p': p, 'fcuts': fcuts,
+                              'keys': [self._key(rng, True) for _ in range(nfr)], 'ctls': ctls})
+            sc = {'items': items, 'cuts': [], 'req_cut': rng.choice([0, 0, rng.randint(1, len(REQUEST) - 1)]),
+                  'sends': [], 'disc': rng.random() < 0.3, 'late': rng.random() < 0.7}
+            L = len(case_stream(sc)[0])
+            sc['cuts'] = sorted(set(rng.randint(1, max(1, L - 1)) for _ in range(rng.randint(0, 4)))) if L > 1 else []
+            nch = len([x for x in sc['cuts'] if 0 < x < L]) + 1
+            for _ in range(rng.choice([0, 1, 1, 2])):
+                text = rng.random() < 0.5
+                sc['sends'].append([rng.randint(0, nch), text, self._payload(rng, text, tier, allow_big=False)])
+            sc['sends'].sort(key=lambda a: a[0])
+            socks[str(n)] = sc
+            order += [n] * len(disp_sock_ops(n, sc))
+        rng.shuffle(order)
+        return {'k': 'disp', 'socks': socks, 'order': order}
+
     def generate(self, rng, n, tier):
         cases = []
         for i in range(n):
@@ -415,6 +660,12 @@ class C17(Prop):
                 text = rng.random() < 0.5
                 cases.append({'k': 'rfc', 'fin': rng.random() < 0.5, 'op': rng.choice([0, 1, 2, 8, 9, 10]),
                               'key': self._key(rng, rng.random() < 0.6), 'p': self._payload(rng, text, tier, allow_big=i % 3 == 0)})
+                continue
+            if i % 9 == 4:
+                cases.append(self.gen_cup(rng, tier))
+                continue
+            if i % 11 == 6:
+                cases.append(self.gen_disp(rng, tier))
                 continue
             self._want_big = i % (40 if tier == 'quick' else 25) == 7     # payloads >= 65535: a fixed share of the cases
             cases.append(self.gen_case(rng, tier))
@@ -425,8 +676,17 @@ class C17(Prop):
     def _count(self, c):
         st = self.stats
         st['kinds'][c['k']] = st['kinds'].get(c['k'], 0) + 1
+        if c['k'] == 'cup':
+            H = len(RESPONSES[c['head']])
+            st['cuts_in_handshake_response'] = st.get('cuts_in_handshake_response', 0) + sum(1 for x in c['cuts'] if x <= H)
+            st['frames_in_same_read_as_response'] = st.get('frames_in_same_read_as_response', 0) + int(H not in c['cuts'] and bool(c['items']))
+        if c['k'] == 'disp':
+            st['dispatcher_sockets'] = st.get('dispatcher_sockets', 0) + len(c['socks'])
+            st['dispatcher_disconnects'] = st.get('dispatcher_disconnects', 0) + sum(1 for v in c['socks'].values() if v['disc'])
         if c['k'] != 'ws':
             return
+        if c.get('lax'):
+            st['invalid_utf8_text'] = st.get('invalid_utf8_text', 0) + 1
         if c.get('init'):
             st['constructor_data'] = st.get('constructor_data', 0) + 1
         cm = c.get('_cm', '?')
@@ -458,6 +718,10 @@ class C17(Prop):
     def impl(self, c):
         if c['k'] == 'rfc':
             return hexs(rfc_encode(c['fin'], c['op'], c['key'], spec_bytes(c['p'])))
+        if c['k'] == 'cup':
+            return self.impl_cup(c)
+        if c['k'] == 'disp':
+            return self.impl_disp(c)
         client = c['mode'] == 'client'
         sock = None if client else FakeSock(1)
         other = FakeSock(2)
@@ -516,41 +780,158 @@ class C17(Prop):
         finally:
             ws_mod.os = saved
 
+    def impl_cup(self, c):
+        """the real WebSocketClient (its TCPClient child replaced by a recording transport) fed with the 101
+        response and the server's frames"""
+        ur = Urandom(c['keys'])
+        saved_os, saved_tcp = ws_mod.os, wsclient_mod.TCPClient
+        ws_mod.os = ur
+        wsclient_mod.TCPClient = FakeTransport
+        try:
+            root = Errors()
+            cl = wsclient_mod.WebSocketClient('ws://example.org/chat').register(root)
+        finally:
+            wsclient_mod.TCPClient = saved_tcp
+        try:
+            tr = cl._transport
+            ClientApp(tr).register(root)
+            drain(root)
+            outs, used = [], []
+            for op in cup_ops(c):
+                tr.cur = {'d': [], 'w': [], 'c': 0}
+                if op[0] == 'recv':
+                    root.fire(read(op[1]), 'wsclient')
+                elif op[0] == 'send':
+                    root.fire(write(op[2].decode('utf-8') if op[1] else bytearray(op[2])), 'ws')
+                else:
+                    root.fire(close(), 'ws')
+                drain(root)
+                if root.errors:
+                    raise ImplError('%s in a handler: %s' % root.errors[0])
+                outs.append({'d': [msg_obs(m) for (_, m) in tr.cur['d']], 'w': [hexs(b) for (_, b) in tr.cur['w']],
+                             'c': tr.cur['c']})
+                used += frame_keys([b for (_, b) in tr.cur['w']])
+            self._recorded[id(c)] = (c, used)
+            return {'outs': outs}
+        finally:
+            ws_mod.os = saved_os
+
+    def impl_disp(self, c):
+        """the real WebSocketsDispatcher under the real web HTTP component and a fake server"""
+        root = Errors()
+        srv = FakeServer().register(root)
+        WebSocketsDispatcher('/ws').register(srv)
+        ServerApp(srv).register(root)
+        drain(root)
+        socks = {}
+        try:
+            outs = []
+            for op in disp_ops(c):
+                n = op[1]
+                sock = socks.setdefault(n, RealSock(n))
+                srv.cur = {}
+                if op[0] == 'up':
+                    rc = c['socks'][str(n)]['req_cut']
+                    for part in ([REQUEST[:rc], REQUEST[rc:]] if rc else [REQUEST]):
+                        root.fire(read(sock, part), 'web')
+                        drain(root)
+                    sl = srv.slot(n)
+                    if not (len(sl['w']) >= 1 and sl['w'][0].startswith(b'HTTP/1.1 101') and sl['connect'] == 1):
+                        raise ImplError('handshake not accepted: %r' % (sl,))
+                    sl['w'] = sl['w'][1:]      # the 101 response itself is not the codec's output
+                elif op[0] in ('read', 'late'):
+                    root.fire(read(sock, op[2]), 'web')
+                elif op[0] == 'send':
+                    root.fire(write(sock, op[3].decode('utf-8') if op[2] else bytearray(op[3])), 'wsserver')
+                elif op[0] == 'disc':
+                    root.fire(disconnect(sock), 'web')
+                drain(root)
+                if root.errors:
+                    raise ImplError('%s in a handler: %s' % root.errors[0])
+                for m, sl in srv.cur.items():
+                    if m != n and (sl['d'] or sl['w'] or sl['c']):
+                        raise ImplError('operation on socket %d produced output for socket %d' % (n, m))
+                sl = srv.slot(n)
+                o = {'s': n, 'd': [msg_obs(m) for m in sl['d']], 'w': [hexs(b) for b in sl['w']], 'c': sl['c']}
+                if op[0] in ('late', 'disc'):
+                    # what the HTTP server answers to frame bytes on a connection without codec is not the codec's output
+                    o['w'], o['c'] = [], 0
+                outs.append(o)
+            return {'outs': outs}
+        finally:
+            for sk in socks.values():
+                sk.close()
+
     # ---- model
-    def model_term(self, c):
-        if c['k'] == 'rfc':
-            key = 'None' if c['key'] is None else '(Some (%d, %d, %d, %d)%%N)' % tuple(c['key'])
-            return 'obs_rfc %s %d%%N %s %s' % ('true' if c['fin'] else 'false', c['op'], key, coq_bytes(spec_bytes(c['p'])))
+    def _ops_term(self, ops):
         groups, single = [], []      # runs of one-byte reads are written  map (fun b => Recv [b]) bytes
 
         def flush_single():
             if single:
                 groups.append('map (fun b => Recv [b]) %s' % nlist(single))
                 del single[:]
-        for op in case_ops(c):
+        for op in ops:
             if op[0] in ('recv', 'init') and len(op[1]) == 1:
                 single.append(op[1][0])
                 continue
             flush_single()
-            if op[0] in ('recv', 'init'):      # (repaired code: constructor data is decoded at registration, like a read)
+            if op[0] in ('recv', 'init'):      # (constructor data is decoded at registration, like a read)
                 groups.append('[Recv %s]' % coq_bytes(op[1]))
             elif op[0] == 'send':
                 groups.append('[Send %s %s]' % ('true' if op[1] else 'false', coq_bytes(op[2])))
             else:
                 groups.append('[Close]')
         flush_single()
+        return ' ++ '.join(groups) if groups else '[]'
+
+    def model_term(self, c):
+        if c['k'] == 'cup':
+            rec = self._recorded.get(id(c))
+            keylist = rec[1] if rec is not None and rec[0] is c else c['keys']
+            ops = []
+            for op in cup_ops(c):
+                if op[0] == 'recv':
+                    ops.append('CRead %s' % coq_bytes(op[1]))
+                elif op[0] == 'send':
+                    ops.append('CApp (Send %s %s)' % ('true' if op[1] else 'false', coq_bytes(op[2])))
+                else:
+                    ops.append('CApp Close')
+            return 'obs_cup [%s] [%s]' % ('; '.join(nlist(k) for k in keylist), '; '.join(ops))
+        if c['k'] == 'disp':
+            ops = []
+            for op in disp_ops(c):
+                n = op[1]
+                if op[0] == 'up':
+                    ops.append('DUpgrade %d%%nat' % n)
+                elif op[0] in ('read', 'late'):
+                    ops.append('DRead %d%%nat %s' % (n, coq_bytes(op[2])))
+                elif op[0] == 'send':
+                    ops.append('DSend %d%%nat %s %s' % (n, 'true' if op[2] else 'false', coq_bytes(op[3])))
+                else:
+                    ops.append('DDisconnect %d%%nat' % n)
+            return 'obs_disp [%s]' % '; '.join(ops)
+        if c['k'] == 'rfc':
+            key = 'None' if c['key'] is None else '(Some (%d, %d, %d, %d)%%N)' % tuple(c['key'])
+            return 'obs_rfc %s %d%%N %s %s' % ('true' if c['fin'] else 'false', c['op'], key, coq_bytes(spec_bytes(c['p'])))
         rec = self._recorded.get(id(c))
         keylist = rec[1] if rec is not None and rec[0] is c else c['keys']
         keys = '[%s]' % '; '.join(nlist(k) for k in keylist)
-        return 'obs_ws %s %s (%s)' % ('true' if c['mode'] == 'client' else 'false', keys, ' ++ '.join(groups) if groups else '[]')
+        return 'obs_ws %s %s %s (%s)' % ('true' if c.get('lax') else 'false', 'true' if c['mode'] == 'client' else 'false',
+                                         keys, self._ops_term(case_ops(c)))
 
     def obs_for_model(self, c, obs):
         if isinstance(obs, dict) and '__crash__' in obs:
             return [-999]
         if c['k'] == 'rfc':
             return summary(bytes.fromhex(obs))
-        return [[[[bool(t), summary(bytes.fromhex(h))] for t, h in o['d']],
-                 summary(b''.join(bytes.fromhex(h) for h in o['w'])), o['c']] for o in obs['outs']]
+        lax = bool(c.get('lax'))
+
+        def out(o):
+            return [[[bool(t), b'' if lax and t else summary(bytes.fromhex(h))] for t, h in o['d']],
+                    summary(b''.join(bytes.fromhex(h) for h in o['w'])), o['c']]
+        if c['k'] == 'disp':
+            return [[o['s'], out(o)] for o in obs['outs']]
+        return [out(o) for o in obs['outs']]
 
     # ---- oracle: the property read directly, against the harness' own RFC codec
     def oracle(self, c, obs):
@@ -558,6 +939,61 @@ class C17(Prop):
             return None          # reported by the framework as "implementation raised"
         if c['k'] == 'rfc':
             return None
+        if c['k'] == 'cup':
+            return self._oracle_cup(c, obs)
+        if c['k'] == 'disp':
+            return self._oracle_disp(c, obs)
+        return self._oracle_ws(c, obs)
+
+    def _oracle_cup(self, c, obs):
+        # bytes following the 101 response must be decoded exactly once: the client behaves like a client-mode
+        # codec that received exactly those bytes (same cuts), whatever the cut of the response itself
+        H = len(RESPONSES[c['head']])
+        data = case_stream(c)[0]
+        L = H + len(data)
+        bounds = sorted(set(x for x in c['cuts'] if 0 < x < L)) + [L]
+        k0 = [i for i, b in enumerate(bounds) if b > H]
+        k0 = k0[0] if k0 else len(bounds)
+        outs = obs['outs']
+        for o in outs[:k0]:
+            if o['d'] or o['w'] or o['c']:
+                return 'output before the handshake response was complete: %r' % (o,)
+        e = {'k': 'ws', 'mode': 'client', 'items': c['items'], 'cuts': [x - H for x in c['cuts'] if x > H],
+             'app': [[a[0] - k0] + a[1:] for a in c['app']], 'keys': c['keys']}
+        return self._oracle_ws(e, {'outs': outs[k0:]})
+
+    def _oracle_disp(self, c, obs):
+        ops = disp_ops(c)
+        outs = obs['outs']
+        if len(outs) != len(ops):
+            return 'driver: %d outputs for %d operations' % (len(outs), len(ops))
+        for k, sc in c['socks'].items():
+            n = int(k)
+            mine = [(op, o) for op, o in zip(ops, outs) if op[1] == n]
+            late = [o for op, o in mine if op[0] == 'late']
+            if any(o['d'] for o in late):
+                return 'socket %d: a frame arriving after disconnect was decoded and delivered' % n
+            got = [(bool(t), bytes.fromhex(h)) for op, o in mine if op[0] != 'late' for (t, h) in o['d']]
+            want = [(bool(it['text']), spec_bytes(it['p'])) for it in sc['items']]
+            if got != want:
+                return 'socket %d: delivered %r.., its peer sent %r..' % (n, [(t, len(p), p[:8]) for t, p in got][:4],
+                                                                         [(t, len(p), p[:8]) for t, p in want][:4])
+            wbytes = b''.join(bytes.fromhex(h) for op, o in mine for h in o['w'])
+            try:
+                wframes = rfc_decode_stream(wbytes, expect_masked=False)
+            except BadFrame as e:
+                return 'socket %d: bytes written are not a conforming frame sequence: %s' % (n, e)
+            sent = [(bool(op[2]), op[3]) for op, o in mine if op[0] == 'send']
+            if [(op == 1, p) for (fin, op, p) in wframes if op in (1, 2)] != sent:
+                return 'socket %d: data frames written do not decode to what the application wrote' % n
+            pings = [bytes(ct['p']) for it in sc['items'] for cl in it['ctls'] for ct in cl if ct['t'] == 'ping']
+            if [p for (fin, op, p) in wframes if op == 10] != pings:
+                return 'socket %d: pongs do not answer the pings' % n
+            if any(op not in (1, 2, 10) or not fin for (fin, op, p) in wframes):
+                return 'socket %d: unexpected frame written' % n
+        return None
+
+    def _oracle_ws(self, c, obs):
         client = c['mode'] == 'client'
         data, fr, ends = case_stream(c)
         chunks, pts = case_chunks(c, data)
@@ -599,6 +1035,9 @@ class C17(Prop):
 
         # (1) delivered messages: exactly the peer's messages before its close frame, type and payload
         got = [(bool(t_), bytes.fromhex(h)) for o in outs for (t_, h) in o['d']]
+        if c.get('lax'):
+            # invalid UTF-8 in a text message: str is decode('utf-8', 'replace') of the bytes; the stream stays in sync
+            exp_msgs = [(e, tx, p.decode('utf-8', 'replace').encode('utf-8') if tx else p) for (e, tx, p) in exp_msgs]
         want = [(tx, p) for (_, tx, p) in exp_msgs]
         must = [(tx, p) for (e, tx, p) in exp_msgs if close_sent_t is None or t_of_chunk[chunk_of(e)] < close_sent_t
                 or peer_close_t == close_sent_t]
@@ -651,6 +1090,10 @@ class C17(Prop):
         return None
 
     def nontrivial(self, c, obs):
+        if c['k'] == 'cup':
+            return bool(c['cuts'])
+        if c['k'] == 'disp':
+            return len(c['order']) > 3
         if c['k'] != 'ws':
             return False
         data, fr, ends = case_stream(c)
